@@ -973,7 +973,10 @@ func (a *Authenticator) validateTokenAndDeriveKeys(authData *TokenAuthData, nego
 		return fmt.Errorf("token validation failed: %w", err)
 	}
 
-	// Extract subject from claims
+	// Extract subject from claims. The identity comes from the token alone: drop
+	// whatever the client claimed in step 1, so that a token without a subject
+	// cannot be used under a self-chosen identity.
+	authData.ClientID = ""
 	if sub, ok := claims["sub"]; ok {
 		if subStr, ok := sub.(string); ok {
 			authData.ClientID = subStr
